@@ -15,7 +15,7 @@ strings and mixed unsortable hashables (float / str / tuple / None), replays the
 after every call: the interaction rows (exact, value by value), the ids and values of the three parameter
 tables, and for raw_learners every reported number (bag per learner level and x, 1e-9).  Python converts and
 compares only; every expectation comes out of TLC."""
-import json, math, random, zlib, hashlib
+import json, math, random, zlib, hashlib, multiprocessing
 from fractions import Fraction
 from .. import tlc, tracecheck
 
@@ -25,6 +25,7 @@ FINISH = dict(level="model_checking",
 YSCALE = Fraction(1, 4)          # rewards are y/4: exact binary floats that are not integers
 PCOLS = {"e": ("environment_id", "ea", "eb"), "l": ("learner_id", "la", "lb"), "v": ("evaluator_id", "va")}
 ICOLS = ("environment_id", "learner_id", "evaluator_id", "index", "reward")
+WORKERS = 12
 KNOWN_CLASSES = ("count-only", "short-after-pairing")
 
 
@@ -194,9 +195,7 @@ def replay(h, enc, route, variant, rng):
         exp = case.exp_rows(step["ev"])
         if got != exp:
             if any(got == case.exp_rows(a) for a in step["alts"]):
-                # the other accepted reading of where_fin(n=k,l,p); the history that takes it continues from there
-                bad = check_tables(case, nxt, dict(step, ev=[a for a in step["alts"] if got == case.exp_rows(a)][0]))
-                if bad: return (sig("%s:%s" % (op, bad[0])), "step %d %s: %s" % (k, call, bad[1]))
+                # the other accepted reading of where_fin(n=k,l,p): the sibling history that takes it checks the tables and continues
                 return None
             ge = sorted({r[:3] for r in got}); ee = sorted((e, l, v) for e, l, v, n in step["ev"])
             if ge != ee: what = "keeps evaluations %r, expected %r" % (ge, ee)
@@ -210,6 +209,19 @@ def replay(h, enc, route, variant, rng):
         if bad: return (sig("%s:%s" % (op, bad[0])), "step %d %s: %s" % (k, call, bad[1]))
         if got_rows(cur) != case.exp_rows(h[k - 1]["ev"]): return ("%s:mutates" % op, "step %d %s changed the Result it was called on" % (k, call))
         cur = nxt
+    return None
+
+
+def _job(job):
+    key, h, quick, seed = job
+    hk = zlib.crc32(key.encode())
+    rng = random.Random(seed * 1000003 + hk)
+    encs = ("int", "str", "mixed") if not quick else ("int", ("str", "mixed")[hk % 2])
+    for i, enc in enumerate(encs):
+        route = ("ctor", "log")[(hk // 2 + i) % 2]
+        variant = (hk // 4 + i) % 4
+        bad = replay(h, enc, route, variant, rng)
+        if bad: return (bad, enc, route, variant)
     return None
 
 
@@ -239,13 +251,13 @@ def plan(ctx):
         return [
             ("ma", dict(base_ma, **{"MAMaxLen = 3": "MAMaxLen = 4"}), None, 1000),
             # every Result on the 2x2x1 grid with lengths 1..3, every single call of the wide argument sets
-            ("g221-all", {"MaxLen = 2": "MaxLen = 3", "FinNs <- N2": "FinNs <- N3", "FinLPs <- LPMid": "FinLPs <- LPAll", "RawArgs <- RawFew": "RawArgs <- RawMid",
+            ("g221-all", {"MaxLen = 2": "MaxLen = 3", "FinNs <- N2": "FinNs <- N3", "RawArgs <- RawFew": "RawArgs <- RawMid",
                           "BestArgs <- BestFew": "BestArgs <- BestAll", "WhereArgs <- WhereFew": "WhereArgs <- WhereAll"}, None, 5000),
             # two evaluators: every subset of the 2x2x2 grid, patterned lengths
-            ("g222-pat", {"Dims <- D221": "Dims <- D222", 'LenMode = "all"': 'LenMode = "pat"', "TabFull <- Bools": "TabFull <- OnlyF",
+            ("g222-pat", {"Dims <- D221": "Dims <- D222", 'LenMode = "all"': 'LenMode = "pat"', "TabFull <- Bools": "TabFull <- OnlyF", "MaxMissing = 9": "MaxMissing = 4",
                           "Ops <- AllOps": "Ops <- FinRaw"}, None, 5000),
             # three environments / learners with duplicated parameter values, few missing
-            ("g331-pat", {"Dims <- D221": "Dims <- D331", 'LenMode = "all"': 'LenMode = "pat"', "MaxMissing = 9": "MaxMissing = 2", "MaxLen = 2": "MaxLen = 3",
+            ("g331-pat", {"Dims <- D221": "Dims <- D331", 'LenMode = "all"': 'LenMode = "pat"', "MaxMissing = 9": "MaxMissing = 1", "MaxLen = 2": "MaxLen = 3",
                           "TabFull <- Bools": "TabFull <- OnlyF", "Pars <- P2": "Pars <- P4", "FinNs <- N2": "FinNs <- N3"}, None, 5000),
             # chains
             ("g221-chain2", {"MaxOps = 1": "MaxOps = 2", 'LenMode = "all"': 'LenMode = "pat"', "FinLPs <- LPMid": "FinLPs <- LPFew"}, None, 3000),
@@ -277,7 +289,6 @@ def run(ctx):
     import coba.results  # noqa: F401  (fail early if the tree does not import)
     from coba.context import CobaContext, NullLogger
     CobaContext.logger = NullLogger()
-    rng = random.Random(ctx.seed)
     total = 0; ops = {}; alts = 0
     for name, sub, sim, least in plan(ctx):
         cfg = tracecheck._cfg("ResultFin.cfg", sub, ctx.scratch, "rf_%s.cfg" % name)
@@ -302,20 +313,19 @@ def run(ctx):
                 hists.setdefault(json.dumps(h, sort_keys=True), h)
         if len(hists) < least: raise RuntimeError("ResultFin %s produced only %d histories" % (name, len(hists)))
         if not sim: ctx.exhaustive = True if ctx.exhaustive is None else ctx.exhaustive
-        for n, key in enumerate(sorted(hists)):
-            h = hists[key]
-            hk = zlib.crc32(key.encode())
+        keys = sorted(hists)
+        for key in keys:
             ctx.case(hashlib.sha1(key.encode()).hexdigest()[:20])
-            for s in h[1:]: ops[s["op"]] = ops.get(s["op"], 0) + 1
-            alts += any(s["alts"] for s in h)
-            encs = ("int", "str", "mixed") if not ctx.quick else ("int", ("str", "mixed")[hk % 2])
-            for i, enc in enumerate(encs):
-                route = ("ctor", "log")[(hk // 2 + i) % 2]
-                variant = (hk // 4 + i) % 4
-                bad = replay(h, enc, route, variant, rng)
-                if bad:
-                    ctx.violation(bad[0], "%s [values as %s, Result built via %s]" % (bad[1], enc, route), dict(history=h, enc=enc, route=route, variant=variant))
-                    break
+            for s in hists[key][1:]: ops[s["op"]] = ops.get(s["op"], 0) + 1
+            alts += any(s["alts"] for s in hists[key])
+        jobs = [(key, hists[key], ctx.quick, ctx.seed) for key in keys]
+        # histories are independent: replayed in forked workers, results consumed in sorted order (deterministic)
+        with multiprocessing.get_context("fork").Pool(WORKERS) as pool:
+            for key, out in zip(keys, pool.imap(_job, jobs, chunksize=200)):
+                if out:
+                    bad, enc, route, variant = out
+                    ctx.violation(bad[0], "%s [values as %s, Result built via %s]" % (bad[1], enc, route), dict(history=hists[key], enc=enc, route=route, variant=variant))
+        del jobs
         total += len(hists)
         mid = hists[sorted(hists)[len(hists) // 2]]
         ctx.sample([(s["op"], s["args"] if s["op"] != "new" else s["args"][0], s["ev"]) for s in mid], limit=5)
